@@ -275,7 +275,9 @@ def run(rep, tier):
     # interactive layer
     typed = ['vh-mark a 0', ' vh-mark a 0', 'vh-mark b 0']
     # texts that match one another as SQL LIKE patterns or differ only in case: they are different commands
-    typed_like = ['vh-mark a_c 0', 'vh-mark abc 0', 'vh-mark ABC 0', 'vh-mark a%c 0']
+    typed_like = ['vh-mark a_c 0', 'vh-mark abc 0', 'vh-mark ABC 0', 'vh-mark a%c 0',
+                  # texts with quotes, a backslash, multi-byte characters, a list operator, a comment and an SQL comment marker
+                  'vh-argv "d q" \'it\' a\\\\b é', 'vh-mark p 0 ; vh-mark q 0 # c', 'vh-argv 100% x_y -- "\')"']
     tjobs = []
     for n in range(1, 4):
         for seq in itertools.product(typed + typed_like if (n <= 2 or tier == 'thorough') else typed, repeat=n):
